@@ -322,9 +322,9 @@ func c03Run(ctx *core.Ctx) {
 	}
 
 	// Layer 1: comparators and flags, all types, all small frames
-	maxN := 3
+	maxN := 4
 	if !ctx.Quick() {
-		maxN = 4
+		maxN = 5
 	}
 	orders := c03OrderLists()
 	for _, kind := range []model.Kind{model.Int, model.Float, model.Bool, model.String, model.Enum} {
@@ -333,6 +333,9 @@ func c03Run(ctx *core.Ctx) {
 			forEachSeq(n, len(alpha)*2, func(seq []int) {
 				for oi, ol := range orders {
 					for shape := 0; shape < model.NShapes; shape++ {
+						if n == 5 && shape != (oi+seq[0]+seq[4])%model.NShapes {
+							continue // 5-row frames: one rotating shape per (frame, order list)
+						}
 						if !ctx.Mine() {
 							continue
 						}
@@ -592,8 +595,8 @@ func init() {
 			"the sort seam adds entry points by overlay only; Sorter.Less/quickSort/heapSort are the repository's code",
 		},
 		Bound: map[string]string{
-			"quick":    "L1 n<=3; L2 {0,1}^<=16, {0,1,2}^<=11, ninther sizes 41,48,64 thinned deviations; L3 seq n<=8, perms n<=6, forced depth 0..2 on n=13..14, adversary n<=120",
-			"thorough": "L1 n<=4; L2 {0,1}^<=20, {0,1,2}^<=13, ninther sizes 41..100 all <=2 deviations; L3 seq n<=9, perms n<=7, forced depth 0..2 on n=13..15, adversary n<=300",
+			"quick":    "L1 n<=4; L2 {0,1}^<=16, {0,1,2}^<=11, ninther sizes 41,48,64 thinned deviations; L3 seq n<=8, perms n<=6, forced depth 0..2 on n=13..14, adversary n<=120",
+			"thorough": "L1 n<=5 (5-row frames on one rotating shape); L2 {0,1}^<=20, {0,1,2}^<=13, ninther sizes 41..100 all <=2 deviations; L3 seq n<=9, perms n<=7, forced depth 0..2 on n=13..15, adversary n<=300",
 		},
 		Run:    c03Run,
 		Replay: replayAs(runSortCase),
